@@ -15,6 +15,7 @@
 import Model.Jl
 import Proofs.Row
 import Proofs.JlDescriptor
+import Proofs.FlowTieAll
 
 namespace Jl.C19
 open Jl Jl.Value Jl.Template Jl.JlCmd
@@ -179,5 +180,15 @@ theorem inline_pair_split (a b : Bytes) (h : 0x3A ∉ a) :
     JlDescriptor.inlinePair (a ++ 0x3A :: b) = (parseDescriptor a, parseDescriptor b) ∧
     JlDescriptor.inlinePair a = (parseDescriptor a, parseDescriptor a) :=
   ⟨JlDescriptor.inlinePair_colon a b h, JlDescriptor.inlinePair_no_colon a h⟩
+
+
+/-! ### Everything `jl` calls, read from the source (Proofs/FlowTieAll) -/
+
+/-- The whole regenerated table of `template.go`, `exporter.go`, `importer.go` and `streamer.go`
+    — the nineteen builders, `CreateRow`, `Export`, the importer, the processors and `Stream` —
+    holds nothing unknown and is the table the model was written against. -/
+theorem library_flow_is_the_source :
+    Gen.flowTable.known = true ∧ Gen.flowTable = FlowSpec.expectedFlow :=
+  ⟨FlowTie.flow_known, FlowTie.flow_as_modelled⟩
 
 end Jl.C19
